@@ -192,6 +192,7 @@ func (s *Syncer[H]) localHead(ctx context.Context) (H, error) {
 
 // setLocalHead takes the already validated head and sets it as the new sync target.
 func (s *Syncer[H]) setLocalHead(ctx context.Context, netHead H) {
+	verifPoint(ctx, "setLocalHead.enter", netHead.Height())
 	// TODO(@Wondertan): Right now, we can only store adjacent headers, instead we should:
 	//  * Allow storing any valid header here in Store
 	//  * Remove ErrNonAdjacent
@@ -212,6 +213,7 @@ func (s *Syncer[H]) setLocalHead(ctx context.Context, netHead H) {
 		// we already synced it up - do nothing
 		return
 	}
+	verifPoint(ctx, "setLocalHead.beforePendingAdd", netHead.Height())
 	// and if valid, set it as new subjective head
 	s.pending.Add(netHead)
 	s.wantSync()
